@@ -84,8 +84,8 @@ ObsTx(env, tx, wayin) ==
                    [] d.kind = "hs" /\ ~d.re /\ d.key # "none" ->
                         [e1 EXCEPT !.nk = @ + 1, !.sess = Append(@, [party |-> wayin.party, kid |-> d.key, claimed |-> d.id]),
                                    !.mine = SelectSeq(@, LAMBDA c : ~(c.party = wayin.party /\ c.echo = wayin.echo)),
-                                   !.seen = Append(@, [n |-> d.n, to |-> d.to, id |-> d.id])]
-                   [] d.kind \in {"hs", "msg", "rand"} /\ ~d.re -> [e1 EXCEPT !.seen = Append(@, [n |-> d.n, to |-> d.to, id |-> d.id])]
+                                   !.seen = Append(@, [n |-> d.n, to |-> d.to, id |-> d.id, key |-> d.key, kind |-> d.kind])]
+                   [] d.kind \in {"hs", "msg", "rand"} /\ ~d.re -> [e1 EXCEPT !.seen = Append(@, [n |-> d.n, to |-> d.to, id |-> d.id, key |-> d.key, kind |-> d.kind])]
                    [] OTHER -> e1
        IN ObsTx(e2, Tail(tx), wayin)
 RECURSIVE ObsEv(_, _)
